@@ -145,6 +145,12 @@ def load_known_findings():
 def _excuse_term(src, symbols):
     ns = {"len": z3.Length, "And": z3.And, "Or": z3.Or, "Not": z3.Not, "Contains": z3.Contains,
           "StringVal": z3.StringVal, "PrefixOf": z3.PrefixOf, "SuffixOf": z3.SuffixOf}
+    def search(sym_term, pattern):
+        """the strings in which re.search(pattern) succeeds"""
+        import re as _re
+        from . import ext
+        return z3.InRe(sym_term, ext.SymPattern(_re.compile(pattern)).contains_re())
+    ns["search"] = search
     ns.update(symbols)
     try:
         t = eval(src, {"__builtins__": {}}, ns)  # noqa: S307  (committed file, own syntax)
@@ -293,6 +299,41 @@ def discharge(pc, late, goal, symbols, want_cvc5_confirm=False):
             "reason": "solver unknown (z3: %s; cvc5: unknown)" % s.reason_unknown()}
 
 
+def _raised_in_code_under_contract(e):
+    """the innermost frame of the traceback is in the repository's own source (not in the engine, a contract or a proxy)"""
+    from . import loader
+    tb = e.__traceback__
+    frames = []
+    while tb is not None:
+        frames.append(tb)
+        tb = tb.tb_next
+    hooks = os.path.join(os.path.dirname(os.path.abspath(__file__)), "rewrite.py")
+    while frames and os.path.abspath(frames[-1].tb_frame.f_code.co_filename) == hooks:
+        frames.pop()          # the redirect hooks are identity on concrete operands: the raising operation is the caller's
+    if not frames:
+        return None
+    last = frames[-1]
+    fn = os.path.abspath(last.tb_frame.f_code.co_filename)
+    root = os.path.abspath(loader.REPO) + os.sep
+    if fn.startswith(root):
+        return "%s:%d" % (fn[len(root):], last.tb_lineno)
+    return None
+
+
+def _guarded(case):
+    """an exception that the code under contract itself raises on an arranged pre-state (and that the contract module does not
+    expect) is program behaviour: it fails the obligation `no exception escapes`, it is not a checker crash"""
+    def run(c):
+        try:
+            return case.run(c)
+        except Exception as e:  # noqa: BLE001  (EngineUnsupported / PathStop are BaseExceptions and pass through)
+            where = _raised_in_code_under_contract(e)
+            if where is None:
+                raise
+            return [(case.key + "/no-unexpected-exception-escapes-the-code-under-contract", (False, {"exception": exc_desc(e), "raised_at": where}))]
+    return run
+
+
 def run_case(case, confirm=False, sample_vc=False):
     """explore all paths of a case, discharge every obligation.  Returns a picklable dict."""
     t0 = time.time()
@@ -303,7 +344,7 @@ def run_case(case, confirm=False, sample_vc=False):
     err = None
     sample = None
     try:
-        for pr in sym.explore(case.run):
+        for pr in sym.explore(_guarded(case)):
             npaths += 1
             nqueries += pr.nqueries
             skipped += len(pr.skipped)
